@@ -149,7 +149,7 @@ func (ex *Exec) shiftTerm(st *State, left bool, x, y Term, bits uint, signed boo
 				cases = append(cases, tImp(tEq(y, intLit(int64(k))), tEq(p, bigLit(pow2(k)))))
 			}
 			cases = append(cases, tGe(p, intLit(1)))
-			ex.ctx.Axiom(tAnd(cases...).S)
+			ex.ctx.AxiomKey(p.S, tAnd(cases...).S)
 			ex.pow2Global[key] = p
 			ok = true
 		}
